@@ -105,7 +105,16 @@ func (t *Ticket) Unmarshal(b []byte) error {
 
 // Marshal the Ticket.
 func (t *Ticket) Marshal() ([]byte, error) {
-	b, err := asn1.Marshal(*t)
+	// The decrypted part is not part of the ticket's ASN1 bytes: marshal a copy without it so that a
+	// ticket that has been decrypted still encodes to the bytes that were received (and never
+	// includes the plaintext of its encrypted part).
+	tk := Ticket{
+		TktVNO:  t.TktVNO,
+		Realm:   t.Realm,
+		SName:   t.SName,
+		EncPart: t.EncPart,
+	}
+	b, err := asn1.Marshal(tk)
 	if err != nil {
 		return nil, err
 	}
